@@ -63,6 +63,11 @@ def in_map_roundtrip(s):
     return PSBTIn.parse(s, TxIn(b"\x07" * 32, 0)).serialize()
 
 
+def psbt_stream_roundtrip(s):
+    """PSBT.parse on a stream, then serialize"""
+    return PSBT.parse(s, network="testnet").serialize()
+
+
 def psbt_roundtrip(raw):
     """(first serialisation, serialisation after parsing it again, base64 round trip) of a serialised PSBT"""
     p = PSBT.parse(BytesIO(raw), network="testnet")
@@ -535,7 +540,8 @@ def configs(kinds, ns, tier, ms=None):
                 if tier == "thorough":
                     combos = IO_COMBOS if n <= 3 else IO_COMBOS[:5]
                 else:
-                    combos = [IO_COMBOS[(idx * 4 + KINDS_MULTI.index(kind) * 3 + n) % 9]]
+                    k0 = (idx * 4 + KINDS_MULTI.index(kind) * 3 + n) % 9
+                    combos = [IO_COMBOS[k0], IO_COMBOS[(k0 + 4) % 9]]
                 for (a, b) in combos:
                     yield m, n, kind, a, b, idx
 
@@ -545,8 +551,9 @@ def job_workflow(kinds, ns, ms=None, quick_skip=False):
         rec = Rec("wallets m-of-n for n in %s%s, kinds %s; %s; every signer subset; %s orders of combine (left and right "
                   "nested) and of sequential signing; finalize/extract for every subset; unknown records in every map"
                   % (list(ns), "" if ms is None else " m in %s" % list(ms), list(kinds),
-                     "all 9 (inputs, outputs) in 1..3 x 1..3 (5 for n=4)" if tier == "thorough" else "one (inputs, outputs) pair per wallet, cycling over 1..3 x 1..3",
+                     "all 9 (inputs, outputs) in 1..3 x 1..3 (5 for n=4)" if tier == "thorough" else "two (inputs, outputs) pairs per wallet, cycling over 1..3 x 1..3",
                      "all" if tier == "thorough" else "up to 6 per subset"))
+        rec.tag = "workflow"
         if quick_skip and tier != "thorough":
             rec.bound = "n = 4 wallets are explored in the thorough tier only"
             return rec.result()
@@ -559,6 +566,7 @@ def job_workflow(kinds, ns, ms=None, quick_skip=False):
 
 def job_single_key(seed, tier):
     rec = Rec("single-key wallets p2pkh, p2wpkh, p2sh-p2wpkh; 1..3 inputs x 1..2 outputs; signer subsets {} and {key}")
+    rec.tag = "single-key"
     for kind in KINDS_SINGLE:
         for a in (1, 2, 3):
             for b in ((1, 2) if tier == "thorough" else (1 + (a % 2),)):
@@ -570,6 +578,7 @@ def job_single_key(seed, tier):
 def job_segwit_flag(seed, tier):
     """(b): PSBT.create from a Tx built with segwit=True"""
     rec = Rec("PSBT.create(Tx(..., segwit=True)) for p2wsh, p2sh-p2wsh, p2wpkh, p2sh-p2wpkh wallets, 1..2 inputs; created and updated stages")
+    rec.tag = "segwit-flag"
     for kind, m, n in (("p2wsh", 2, 2), ("p2sh-p2wsh", 1, 2), ("p2wpkh", 1, 1), ("p2sh-p2wpkh", 1, 1)):
         for a in (1, 2):
             case = build_case(m, n, kind, a, 2, segwit_flag=True, id_offset=seed % 3)
@@ -582,6 +591,7 @@ def job_helper(seed, tier):
     """create_multisig_psbt (p2sh) -> serialise -> signer parses and signs -> coordinator combines into its object"""
     from buidl.psbt_helper import create_multisig_psbt
     rec = Rec("create_multisig_psbt p2sh wallets 1-of-2, 2-of-2, 2-of-3 with change; coordinator object combined with each signer's parsed copy, both directions")
+    rec.tag = "helper"
     for m, n in ((1, 2), (2, 2), (2, 3)):
         ids = list(range(seed % 3, seed % 3 + n))
         nm, red, _, spk = wallet_script("p2sh", m, ids, 0, 0)
@@ -700,6 +710,7 @@ def job_reject(kinds):
         rec = Rec("signed honest PSBTs (kinds %s, 1-of-1.. 2-of-3, 1..2 inputs), each mutated one thing at a time: invalid / swapped / "
                   "foreign-input / re-flagged / truncated partial signature, invalid signature with UTXO removed, swapped or altered "
                   "previous transaction, altered witness UTXO, foreign redeem/witness script; loaded with PSBT.parse" % (list(kinds),))
+        rec.tag = "reject"
         for kind in kinds:
             for (m, n, a) in ((2, 2, 1), (2, 3, 2)) if kind in KINDS_MULTI else ((1, 1, 1), (1, 1, 2)):
                 case = build_case(m, n, kind, a, 2, id_offset=seed % 3)
@@ -727,6 +738,7 @@ def job_lossless(seed, tier):
     survive parse -> serialize (title of C10: 'lossless')"""
     rec = Rec("honest 2-of-3 PSBTs (p2sh, p2wsh, p2sh-p2wsh) re-expressed with admissible BIP174 content: both UTXO records, "
               "sighash type 1/0x81, signature by a key outside the script, 65-byte keys absent; state after parse->serialize compared")
+    rec.tag = "lossless"
     for kind in KINDS_MULTI:
         case = build_case(2, 3, kind, 2, 2, id_offset=seed % 3)
         p = copy.deepcopy(case.psbt)
@@ -763,6 +775,33 @@ def job_lossless(seed, tier):
             rec.check("C10.a.lossless." + name, ost[0] == "ok" and ost[1] == s2, dict(inp, reserialised=b64(out)),
                       "records lost or changed by parse -> serialize", key=(case.label, name))
             roundtrip_checks(rec, out, "reserialised " + name, case.label)
+    # global xpub records: the 78-byte extended key is data, whatever its version bytes / origin path
+    case = build_case(2, 2, "p2wsh", 1, 2, with_xpubs=True, id_offset=seed % 3)
+    st = S.psbt_parse(case.updated)
+    s2 = copy.deepcopy(st)
+    s2["xpubs"] = {bytes.fromhex("02575483") + k[4:]: v for k, v in st["xpubs"].items()}      # SLIP-132 Vpub
+    xvars = [("xpub-slip132-version", S.psbt_ser(s2), NET)]
+    for path, name in (("m/45'/0", "tpub-origin-m45-parsed-without-network"), ("m/48'", "tpub-origin-depth1-parsed-without-network"),
+                       ("m", "tpub-master-parsed-without-network")):
+        p = parse(case.created)
+        hd = {}
+        for i in case.ids:
+            x = NamedHDPublicKey.from_hd_priv(root(i), path)
+            hd[x.raw_serialize()] = x
+        p.hd_pubs = hd
+        xvars.append((name, p.serialize(), None))
+    for name, raw2, net in xvars:
+        inp = {"case": case.label, "variant": name, "psbt": b64(raw2), "network_argument": net}
+        sst, s2 = outcome(S.psbt_parse, raw2)
+        if not rec.check("C10.a.spec-valid", sst == "ok", inp, "not a valid PSBT per spec: %s" % (s2,)):
+            continue
+        got = outcome(lambda: PSBT.parse(BytesIO(raw2), network=net))
+        if not rec.check("C10.a.accepts-valid." + name, got[0] == "ok", inp, "valid PSBT rejected: %s" % (got[1],)):
+            continue
+        out = got[1].serialize()
+        ost = outcome(S.psbt_parse, out)
+        rec.check("C10.a.lossless." + name, ost[0] == "ok" and ost[1] == s2, dict(inp, reserialised=b64(out)),
+                  "records lost or changed by parse -> serialize (extended-key version bytes rewritten)", key=(case.label, name))
     return rec.result()
 
 
@@ -978,10 +1017,11 @@ def job_describe(kind, n, ms=None, quick_skip=False):
         rec = Rec("%s wallets m-of-%d%s; %s; honest PSBT with change in every position and without change, explicit hdpubkey_map and the "
                   "PSBT's own global xpubs; then the full tampering catalogue (one alteration each, ~45 entries), each judged against "
                   "spec.review of the same bytes" % (kind, n, "" if ms is None else " m in %s" % list(ms),
-                                                     "all (inputs, outputs) in 1..3 x 1..3 (5 for n=4)" if tier == "thorough" else "one (inputs, outputs) pair per wallet"))
+                                                     "all (inputs, outputs) in 1..3 x 1..3 (5 for n=4)" if tier == "thorough" else "two (inputs, outputs) pairs per wallet"))
         if quick_skip and tier != "thorough":
             rec.bound = "n = 4 wallets are explored in the thorough tier only"
             return rec.result()
+        rec.tag = "describe"
         for m, nn, k, a, b, idx in configs((kind,), (n,), tier, ms):
             ids = list(range(seed % 3, seed % 3 + nn))
             hmap = hdpubkey_map(ids)
@@ -1004,3 +1044,79 @@ def job_describe(kind, n, ms=None, quick_skip=False):
                 judge(rec, "C11.tamper." + tid, raw2, s2, case.wallet, hmap, {"case": case.label, "tamper": tid, "honest": b64(case.updated)})
         return rec.result()
     return run
+
+
+# =========================================================================== parser strictness (reported as notes)
+def _assemble(st, g_extra=b"", in_extra=None, out_extra=None):
+    """psbt_ser with raw record bytes appended to chosen maps (lets us build duplicate / ill-sized records)"""
+    out = S.PSBT_MAGIC + S.kv(b"\x00", st["tx"])
+    for k in sorted(st["xpubs"]):
+        out += S.kv(b"\x01" + k, st["xpubs"][k])
+    for k in sorted(st["unknown"]):
+        out += S.kv(k, st["unknown"][k])
+    out += g_extra + b"\x00"
+    for j, i in enumerate(st["inputs"]):
+        out += S.input_map_ser(i)[:-1] + ((in_extra or {}).get(j, b"")) + b"\x00"
+    for j, o in enumerate(st["outputs"]):
+        out += S.output_map_ser(o)[:-1] + ((out_extra or {}).get(j, b"")) + b"\x00"
+    return out
+
+
+def malformed_catalogue(case):
+    p = copy.deepcopy(case.psbt)
+    p.sign(root(case.ids[0]))
+    st = S.psbt_parse(inject_unknowns(p.serialize()))
+    i0, o0 = st["inputs"][0], st["outputs"][case.change_index]
+    xk = sorted(st["xpubs"])[0]
+    sk = sorted(i0["partial_sigs"])[0]
+    bk = sorted(i0["bip32"])[0]
+    ok_ = sorted(o0["bip32"])[0]
+    utxo = (b"\x00", i0["non_witness_utxo"]) if i0["non_witness_utxo"] is not None else (b"\x01", i0["witness_utxo"])
+    script = (b"\x04", i0["redeem_script"]) if i0["redeem_script"] is not None else (b"\x05", i0["witness_script"])
+    oscript = (b"\x00", o0["redeem_script"]) if o0["redeem_script"] is not None else (b"\x01", o0["witness_script"])
+    ci = case.change_index
+    cat = [
+        ("dup-global-unsigned-tx", _assemble(st, g_extra=S.kv(b"\x00", st["tx"]))),
+        ("dup-global-xpub", _assemble(st, g_extra=S.kv(b"\x01" + xk, st["xpubs"][xk]))),
+        ("dup-global-unknown", _assemble(st, g_extra=S.kv(b"\xf0key", b"other"))),
+        ("dup-global-unknown-empty-value", _assemble(st, g_extra=S.kv(b"\x0a", b""))),
+        ("dup-input-utxo", _assemble(st, in_extra={0: S.kv(*utxo)})),
+        ("dup-input-partial-sig", _assemble(st, in_extra={0: S.kv(b"\x02" + sk, i0["partial_sigs"][sk])})),
+        ("dup-input-sighash", _assemble(st, in_extra={0: S.kv(b"\x03", S.le(1, 4)) + S.kv(b"\x03", S.le(1, 4))})),
+        ("dup-input-script", _assemble(st, in_extra={0: S.kv(*script)})),
+        ("dup-input-bip32", _assemble(st, in_extra={0: S.kv(b"\x06" + bk, i0["bip32"][bk][:4] + S.path_bytes([1, 2]))})),
+        ("dup-input-unknown-empty-value", _assemble(st, in_extra={0: S.kv(b"\xfcX", b"")})),
+        ("dup-output-script", _assemble(st, out_extra={ci: S.kv(*oscript)})),
+        ("dup-output-bip32", _assemble(st, out_extra={ci: S.kv(b"\x02" + ok_, o0["bip32"][ok_][:4] + S.path_bytes([1, 2]))})),
+        ("keylen-sighash", _assemble(st, in_extra={0: S.kv(b"\x03\x00", S.le(1, 4))})),
+        ("keylen-partial-sig-short", _assemble(st, in_extra={0: S.kv(b"\x02" + sk[:10], i0["partial_sigs"][sk])})),
+        ("keylen-input-bip32-short", _assemble(st, in_extra={0: S.kv(b"\x06" + bk[:20], i0["bip32"][bk])})),
+        ("keylen-global-xpub-short", _assemble(st, g_extra=S.kv(b"\x01" + xk[:70], st["xpubs"][xk]))),
+        ("keylen-global-tx", _assemble(dict(st, tx=st["tx"]), g_extra=b"")[:5] + S.kv(b"\x00\x00", st["tx"]) + _assemble(st)[5 + len(S.kv(b"\x00", st["tx"])):]),
+        ("valuelen-sighash-1-byte", _assemble(st, in_extra={0: S.kv(b"\x03", b"\x01")})),
+        ("valuelen-bip32-not-multiple-of-4", _assemble(st, in_extra={0: S.kv(b"\x06" + S.derive_pub(case.wallet["cosigners"][0]["xpub"], [4, 4]), b"\x00" * 7)})),
+        ("trailing-bytes", _assemble(st) + b"\x00"),
+        ("missing-last-output-map", _assemble(st)[:-len(S.output_map_ser(st["outputs"][-1]))]),
+    ]
+    tx = S.unsigned_tx_parse(st["tx"])
+    tx["ins"][0]["script_sig"] = b"\x51"
+    cat.append(("unsigned-tx-nonempty-scriptsig", _assemble(dict(st, tx=S.tx_ser_legacy(tx)))))
+    return cat
+
+
+def job_parser_strictness(seed, tier):
+    rec = Rec("a signed 2-of-2 p2sh and p2wsh PSBT with global xpubs and unknown records, each given one BIP174-invalid feature "
+              "(duplicate key of every record type, wrong key/value sizes, trailing/missing bytes, non-empty scriptSig in the "
+              "unsigned tx); acceptance by PSBT.parse is recorded as a NOTE (strictness is not part of the statement of C10)")
+    rec.tag = "parser-strictness"
+    for kind in ("p2sh", "p2wsh"):
+        case = build_case(2, 2, kind, 1, 2, with_xpubs=True, id_offset=seed % 3)
+        for mid, raw in malformed_catalogue(case):
+            rec.check("C10.strict.spec-rejects." + mid, not S.parses(raw), {"case": case.label, "malformation": mid, "psbt": b64(raw)},
+                      "tooling: the spec parser accepts the malformed PSBT", key=(kind, mid))
+            got = outcome(parse, raw)
+            rec.n += 1
+            rec.distinct.add(("real", kind, mid))
+            if got[0] == "ok":
+                rec.notes.append({"case": case.label, "accepted_malformation": mid, "psbt": b64(raw)})
+    return rec.result()
